@@ -206,7 +206,9 @@ Definition alloc_senc_from (s0 : rd) (sr_path : bool) (hs hl : N) (body : list N
       let '(cnt, s) := rd_n body 4 s in
       let fl := flags_of vf in
       if sr_path then
-        if has fl 2 && (hs - 16 <? 2 * cnt) then rej
+        (* nrDataBytes := hdr.payloadLen() - 8 (b8f1424: the header may be 16 bytes long) *)
+        if (apayload_len hs hl - 8 <? 0)%Z then rej
+        else if has fl 2 && (Z.to_N (apayload_len hs hl - 8) <? 2 * cnt) then rej
         else let s := rd_bytes_z body (apayload_len hs hl - 8) s in afin true s cnt 0 0
       else
         if has fl 2 && (lenN body - 8 <? 2 * cnt) then rej
